@@ -95,7 +95,8 @@ Inductive view (s : state) (t : tid) (s' : state) : Prop :=
     keepw s s' t -> view s t s'
 | V_enter : forall f, Qs s' = Qs s -> pcof s t = PW0 WkPump f -> t_sub (tasks s' t) = t_sub (tasks s t) ++ [f] ->
     pre_hand (pcof s' t) = [] -> keepw s s' t -> view s t s'
-| V_push : forall f, pcof s t = PIdle -> (exists d rest, t_prog (tasks s t) = CSend d :: rest) ->
+| V_push : forall f, pcof s t = PIdle ->
+    (exists sid d rest, t_prog (tasks s t) = CSend d :: rest /\ t_sid (tasks s t) = Some sid /\ f = psh_frame sid d) ->
     pushed s' = pushed s ++ [(t, f)] -> pump_owner s' = pump_owner s -> own s' t = own s t ->
     ((dq s' = dq s ++ [(t, f)] /\ keepw s s' t /\ forall p, pump_owner s = Some p -> pcof s p <> PPwait)
      \/ (exists p, p <> t /\ pump_owner s = Some p /\ pcof s p = PPwait /\ dq s' = dq s /\
@@ -204,14 +205,14 @@ Proof.
       destruct (t_sid x) eqn:Es; [destruct (t_sclosed x || pump_done s)|]; inversion H; subst; try apply VF0.
       set (f := psh_frame n payload).
       destruct (push_view s0 t f C) as (P1 & P2 & [(D & NW & TS)|(p & Eo & Ew & D & Pp & Sp & TS)]).
-      * apply (V_push s t _ f); [exact Ei | exists payload, rest; exact Eprog | exact P1 | exact P2 | |].
+      * apply (V_push s t _ f); [exact Ei | exists n, payload, rest; split; [exact Eprog | split; [exact Es | reflexivity]] | exact P1 | exact P2 | |].
         -- apply (own_of s _ t PIdle); [apply pcof_finish_self | rewrite sub_finish, TS; exact S0 | rewrite Ei; reflexivity].
         -- left. split; [exact D | split].
            ++ intros u Hne Hu. unfold pcof. cbn. rewrite upd_other by exact Hne. rewrite TS.
               destruct Q0 as (_ & _ & E). fold (pcof s0 u). rewrite E. exact Hu.
            ++ intros p Ep Hp. apply (NW p Ep). destruct Q0 as (_ & _ & E). rewrite E. exact Hp.
       * assert (p <> t) as Hpt by (intros ->; destruct Q0 as (_ & _ & E); rewrite E, Ei in Ew; discriminate).
-        apply (V_push s t _ f); [exact Ei | exists payload, rest; exact Eprog | exact P1 | exact P2 | |].
+        apply (V_push s t _ f); [exact Ei | exists n, payload, rest; split; [exact Eprog | split; [exact Es | reflexivity]] | exact P1 | exact P2 | |].
         -- apply (own_of s _ t PIdle); [apply pcof_finish_self | | rewrite Ei; reflexivity].
            rewrite sub_finish, (TS t) by (intros E; apply Hpt; symmetry; exact E). exact S0.
         -- right. exists p. split; [exact Hpt | split; [exact Eo | split; [|split; [exact D | split]]]].
@@ -513,7 +514,7 @@ Proof.
   { intros u Hu. destruct (Nat.eq_dec u t) as [->|Hne].
     - destruct (step_self_ppwait s t s' H Hu) as (Ei & Eo & Ed & rest & Ep).
       pose proof (OwnP Eo). subst t.
-      destruct V as [Q _ _|f Q _ _ _ _ _|f Q _ _ _ _|f _ [d [r E]] _ _ _ _|O _ _ _ _ _ _ _|u f q _ _ Ed' _ _ _ _ _ _|_ Q _ _ _ _ _];
+      destruct V as [Q _ _|f Q _ _ _ _ _|f Q _ _ _ _|f _ [sd [d [r [E _]]]] _ _ _ _|O _ _ _ _ _ _ _|u f q _ _ Ed' _ _ _ _ _ _|_ Q _ _ _ _ _];
         try (destruct (qs_fields _ _ Q) as (D & _ & O); rewrite D, O; auto; fail).
       + rewrite Ep in E. discriminate.
       + congruence.
@@ -545,7 +546,7 @@ Proof.
   (* FIFO *)
   assert (t_sub (tasks s' p) ++ pre_hand (pcof s' p) ++ map snd (dq s') = map snd (pushed s')) as Pf'.
   { destruct (Nat.eq_dec p t) as [->|Hne].
-    - destruct V as [Q O _|f Q _ _ _ [(Ei & c & r & E & Nc)|(sid & E)] _|f Q Ei S P _|f Ei [d [r E]] _ _ _ _|O _ D Pu Ow' _ _ _|u f q _ _ Ed D Pu Ei Ei' S _|_ Q _ Ei Ei' S _].
+    - destruct V as [Q O _|f Q _ _ _ [(Ei & c & r & E & Nc)|(sid & E)] _|f Q Ei S P _|f Ei [sd [d [r [E _]]]] _ _ _ _|O _ D Pu Ow' _ _ _|u f q _ _ Ed D Pu Ei Ei' S _|_ Q _ Ei Ei' S _].
       + destruct (qs_fields _ _ Q) as (D & Pu & _). unfold own in O. inversion O as [[O1 O2]]. rewrite O1, O2, D, Pu. exact Pf.
       + exfalso. apply Nc. apply (only_pump_head _ _ _ Pp E).
       + exfalso. rewrite E in Np. discriminate.
@@ -611,3 +612,257 @@ Proof.
 Qed.
 
 End Pump.
+
+(* ---- a stream's SYN is in the log before anything is pushed for it ---- *)
+(* for a task that holds a stream id: inside open_stream the frame in hand is that stream's SYN; everywhere else
+   (the handle has been returned, or an older handle is still held while a new open starts) the SYN is in the log *)
+Definition open_ok (s : state) (u : tid) : Prop :=
+  forall sid, t_sid (tasks s u) = Some sid ->
+    match pcof s u with
+    | PO1 x => x = sid
+    | PW0 WkOpen f | PW1 WkOpen f | PW2 WkOpen f | PW2wait WkOpen f | PW3 WkOpen f => f = syn_frame sid
+    | _ => In (u, syn_frame sid) (lin s)
+    end.
+
+Lemma open_ok_init progs buf pend u : open_ok (init progs buf pend) u.
+Proof. intros sid H. cbn in H. discriminate. Qed.
+
+Lemma in_lin_grows s s' e : (exists l, lin s' = lin s ++ l) -> In e (lin s) -> In e (lin s').
+Proof. intros [l E] H. rewrite E. apply in_or_app. left. exact H. Qed.
+
+(* the stepping task *)
+Lemma open_ok_self s t s' : Inv s -> step s t = Some s' -> closed s' = false -> open_ok s t -> open_ok s' t.
+Proof.
+  intros HI H C' O.
+  assert (closed s = false) as C.
+  { destruct (closed s) eqn:E; [|reflexivity]. rewrite (closed_mono s t s' H E) in C'. discriminate. }
+  pose proof (step_lin_grows s t s' HI H) as G.
+  unfold step in H. unfold open_ok in *. unfold pcof in O.
+  destruct (t_pc (tasks s t)) eqn:Epc.
+  - (* PIdle *)
+    destruct (t_prog (tasks s t)) as [|c rest] eqn:Eprog; [discriminate|].
+    unfold start_call in H. set (x := with_prog (tasks s t) rest) in *. set (s0 := set_task s t x) in *.
+    assert (forall X r sid, t_sid (tasks (finish X t r) t) = Some sid -> t_sid (tasks X t) = Some sid) as FS.
+    { intros X r sid E. cbn in E. rewrite upd_same in E. exact E. }
+    assert (forall sid, t_sid (tasks s0 t) = Some sid -> t_sid (tasks s t) = Some sid) as S0.
+    { intros sid E. unfold s0 in E. cbn in E. rewrite upd_same in E. exact E. }
+    (* every call that ends at once leaves t at PIdle holding the same id: the SYN stays in the (growing) log *)
+    assert (forall X r, (forall sid, t_sid (tasks X t) = Some sid -> t_sid (tasks s t) = Some sid) ->
+                        s' = finish X t r -> forall sid, t_sid (tasks s' t) = Some sid ->
+                        match pcof s' t with
+                        | PO1 x0 => x0 = sid
+                        | PW0 WkOpen f | PW1 WkOpen f | PW2 WkOpen f | PW2wait WkOpen f | PW3 WkOpen f => f = syn_frame sid
+                        | _ => In (t, syn_frame sid) (lin s')
+                        end) as FIN.
+    { intros X r SX -> sid E. rewrite pcof_finish_self. apply (in_lin_grows s _ _ G). apply (O sid). apply SX. apply (FS X r). exact E. }
+    destruct c.
+    + (* CWrite *) inversion H; subst. intros sid E. rewrite pcof_set_task_same. cbn [t_pc with_pc].
+      apply (in_lin_grows s _ _ G). apply (O sid). cbn in E. rewrite upd_same in E. exact E.
+    + (* CData *)
+      destruct (t_sid x) eqn:Es; inversion H; subst; [|eapply FIN; [exact S0 | reflexivity]].
+      intros sid E. rewrite pcof_set_task_same. cbn [t_pc with_pc].
+      apply (in_lin_grows s _ _ G). apply (O sid). cbn in E. rewrite upd_same in E. exact E.
+    + (* COpen *)
+      destruct (closed s); inversion H; subst; [eapply FIN; [exact S0 | reflexivity]|].
+      intros sid E. rewrite pcof_set_task_same. cbn [t_pc with_pc].
+      apply (in_lin_grows s _ _ G). apply (O sid). cbn in E. rewrite upd_same in E. exact E.
+    + destruct (t_sid x); [destruct (t_verdict x)|]; inversion H; subst; eapply FIN; try exact S0; reflexivity.
+    + destruct (t_sid x); [destruct (t_verdict x)|]; inversion H; subst; try (eapply FIN; [exact S0 | reflexivity]).
+      eapply FIN; [|reflexivity]. intros sid E. cbn in E. rewrite !upd_same in E. exact E.
+    + destruct (t_sid x); [destruct (t_rq x) as [|q]; [destruct (t_rclosed x)|]|]; inversion H; subst; try (eapply FIN; [exact S0 | reflexivity]).
+      eapply FIN; [|reflexivity]. intros sid E. cbn in E. rewrite !upd_same in E. exact E.
+    + (* CClose closes *)
+      inversion H; subst. exfalso. unfold enter_close in C'. change (closed s0) with (closed s) in C'. rewrite C in C'. cbn in C'. discriminate.
+    + inversion H; subst. eapply FIN; [|reflexivity]. exact S0.
+    + inversion H; subst. eapply FIN; [|reflexivity]. exact S0.
+    + inversion H; subst. eapply FIN; [|reflexivity]. exact S0.
+    + (* CFeed *)
+      destruct (Nat.eqb t rtid) eqn:Et; inversion H; subst; [eapply FIN; [exact S0 | reflexivity]|].
+      eapply FIN; [|reflexivity]. intros sid E.
+      destruct (ks_feed s0 ev t) as [[A|A] _]; [rewrite A in E; apply S0; exact E | congruence].
+    + (* CSend *)
+      destruct (t_sid x) eqn:Es; [destruct (t_sclosed x || pump_done s)|]; inversion H; subst; try (eapply FIN; [exact S0 | reflexivity]).
+      eapply FIN; [|reflexivity]. intros sid E.
+      destruct (ks_push s0 t (psh_frame n payload) t) as [[A|A] _]; [rewrite A in E; apply S0; exact E | congruence].
+    + (* CPump *)
+      destruct (pump_owner s) as [p|].
+      * destruct (negb (Nat.eqb p t)); [inversion H; subst; eapply FIN; [exact S0 | reflexivity]|].
+        destruct (pump_done s); [inversion H; subst; eapply FIN; [exact S0 | reflexivity]|].
+        destruct (dq s) as [|[u f] q].
+        -- inversion H; subst. intros sid E. rewrite pcof_set_task_same. cbn [t_pc with_pc].
+           apply (in_lin_grows s _ _ G). apply (O sid). cbn in E. rewrite upd_same in E. exact E.
+        -- rewrite C in H. inversion H; subst. intros sid E. rewrite pcof_set_task_same. cbn [t_pc with_pc].
+           apply (in_lin_grows s _ _ G). apply (O sid). cbn in E. rewrite upd_same in E. exact E.
+      * inversion H; subst. eapply FIN; [|reflexivity]. exact S0.
+  - (* PW0 *)
+    rewrite C in H.
+    assert (forall sid, t_sid (sub_if_pump k (tasks s t) f) = Some sid -> t_sid (tasks s t) = Some sid) as SP by (intros sid; destruct k; exact (fun e => e)).
+    destruct (buffering s); inversion H; subst; intros sid E; rewrite pcof_set_task_same; cbn [t_pc with_pc];
+      cbn in E; rewrite upd_same in E; cbn in E; apply SP in E; specialize (O sid E);
+      destruct k; try exact O; apply (in_lin_grows s _ _ G); exact O.
+  - (* PW1: the frame is logged, the call returns *)
+    inversion H; subst. intros sid E. rewrite pcof_finish_w_self.
+    assert (t_sid (tasks s t) = Some sid) as E0.
+    { destruct k; cbn in E; rewrite ?upd_same in E; exact E. }
+    specialize (O sid E0). destruct (data_finish_w (set_queue s (pending s ++ [(t, f)]) (lin s ++ [(t, f)])) t k ResOk) as (_ & _ & L & _).
+    rewrite L. cbn [lin set_queue]. destruct k; [apply in_or_app; left; exact O | subst f; apply in_or_app; right; left; reflexivity | apply in_or_app; left; exact O].
+  - (* PW2 *)
+    destruct (wr s); inversion H; subst; intros sid E; (assert (t_sid (tasks s t) = Some sid) as E0 by (cbn in E; rewrite upd_same in E; exact E));
+      specialize (O sid E0); unfold pcof; cbn; rewrite upd_same; cbn; exact O.
+  - discriminate.
+  - (* PW3: logged under the lock *)
+    inversion H; subst. intros sid E. assert (t_sid (tasks s t) = Some sid) as E0 by (cbn in E; rewrite upd_same in E; exact E).
+    specialize (O sid E0). unfold pcof. cbn. rewrite upd_same. cbn.
+    destruct k; [apply in_or_app; left; exact O | subst f; apply in_or_app; right; left; reflexivity | apply in_or_app; left; exact O].
+  - (* PW4 *)
+    destruct (failing s || shut s); inversion H; subst; intros sid E.
+    + set (s1 := set_wire s (pkt s + 1)%N (wire s)) in *.
+      assert (t_sid (tasks s t) = Some sid) as E0.
+      { destruct (ks_trans _ _ _ (ks_release_ws (waiters s1) s1 t) (ks_set_pc (release_ws (waiters s1) s1) t (PE0 AfterIoErr k) t)) as [[A|A] _];
+          [|unfold release in E; congruence]. unfold release in E. rewrite A in E. exact E. }
+      unfold pcof. cbn. rewrite upd_same. cbn. apply (in_lin_grows s _ _ G). exact (O sid E0).
+    + set (s1 := set_wire s (pkt s + 1)%N (wire s ++ [((pkt s + 1)%N, held)])) in *.
+      rewrite pcof_finish_w_self.
+      assert (t_sid (tasks s t) = Some sid) as E0.
+      { destruct (ks_trans _ _ _ (ks_release_ws (waiters s1) s1 t) (ks_finish_w (release_ws (waiters s1) s1) t k ResOk t)) as [[A|A] _];
+          [|unfold release in E; congruence]. unfold release in E. rewrite A in E. exact E. }
+      apply (in_lin_grows s _ _ G). exact (O sid E0).
+  - (* PE0: close() sets the flag *)
+    inversion H; subst. exfalso. unfold enter_close in C'. rewrite C in C'. cbn in C'. discriminate.
+  - (* PC1 *)
+    cbv zeta in H. rewrite (wake_id s C) in H. inversion H; subst. intros sid E.
+    assert (t_sid (tasks s t) = Some sid) as E0.
+    { cbn in E. rewrite upd_same in E. cbn in E. destruct (drain_keeps (table s) (tasks s) t) as (_ & _ & B & _). rewrite B in E. exact E. }
+    unfold pcof. cbn. rewrite upd_same. cbn. exact (O sid E0).
+  - (* PC2 *)
+    destruct (wr s); inversion H; subst; intros sid E.
+    + assert (t_sid (tasks s t) = Some sid) as E0 by (cbn in E; rewrite upd_same in E; exact E).
+      unfold pcof. cbn. rewrite upd_same. cbn. exact (O sid E0).
+    + rewrite pcof_finish_close_same.
+      destruct (ks_finish_close (set_shut s) t a k t) as [[A|A] _]; [|congruence].
+      rewrite A in E. destruct (data_finish_close (set_shut s) t a k) as (_ & _ & L & _). rewrite L. exact (O sid E).
+  - discriminate.
+  - (* PO0: the id is allocated *)
+    inversion H; subst. intros sid E. cbn in E. rewrite upd_same in E. cbn in E. inversion E; subst.
+    rewrite pcof_set_task_same. reflexivity.
+  - (* PO1: the SYN is submitted *)
+    inversion H; subst. intros sid' E. assert (t_sid (tasks s t) = Some sid') as E0 by (cbn in E; rewrite upd_same in E; exact E).
+    specialize (O sid' E0). subst sid. rewrite pcof_set_task_same. reflexivity.
+  - discriminate.
+Qed.
+
+(* a step of another task *)
+Lemma open_ok_other s t s' u : Inv s -> step s t = Some s' -> u <> t -> open_ok s u -> open_ok s' u.
+Proof.
+  intros HI H Hne O sid E.
+  pose proof (step_lin_grows s t s' HI H) as G.
+  assert (t_sid (tasks s u) = Some sid) as E0.
+  { destruct (step_keeps s t s' u H (fun X => False_ind _ (Hne X))) as [[A|A] _]; [rewrite A in E; exact E | congruence]. }
+  specialize (O sid E0).
+  destruct (step_others s t s' HI H u Hne) as [[A|[(k & f & A & B)|(a & k & A & B & _)]]|[(_ & A & [B|B])|(A & [B|[f B]])]].
+  - rewrite A. destruct (pcof s u) as [ | k f| k f| k f| k f| k f| | | | | | | | ]; try destruct k; try exact O; apply (in_lin_grows s _ _ G); exact O.
+  - rewrite A in O. rewrite B. destruct k; try exact O; apply (in_lin_grows s _ _ G); exact O.
+  - rewrite A in O. rewrite B. apply (in_lin_grows s _ _ G); exact O.
+  - rewrite A in O. rewrite B. apply (in_lin_grows s _ _ G); exact O.
+  - rewrite A in O. rewrite B. apply (in_lin_grows s _ _ G); exact O.
+  - rewrite A in O. rewrite B. apply (in_lin_grows s _ _ G); exact O.
+  - rewrite A in O. rewrite B. apply (in_lin_grows s _ _ G); exact O.
+Qed.
+
+Definition open_all (s : state) : Prop := forall u, open_ok s u.
+
+Lemma step_open_all s t s' : Inv s -> open_all s -> step s t = Some s' -> closed s' = false -> open_all s'.
+Proof.
+  intros HI O H C u. destruct (Nat.eq_dec u t) as [->|Hne]; [eapply open_ok_self; eauto | eapply open_ok_other; eauto].
+Qed.
+
+(* everything in the channel log belongs to a stream whose SYN is already in the linearisation log *)
+Definition pushed_ok (s : state) : Prop := forall u f, In (u, f) (pushed s) -> In (u, syn_frame (fsid f)) (lin s).
+
+Lemma step_pushed_ok s t s' : Inv s -> open_all s -> pushed_ok s -> step s t = Some s' -> closed s' = false -> pushed_ok s'.
+Proof.
+  intros HI O P H C' u f Hin.
+  pose proof (step_lin_grows s t s' HI H) as G.
+  destruct (step_view s t s' HI H C') as [Q _ _|g Q _ _ _ _ _|g Q _ _ _ _|g Ei (sid & d & rest & _ & Es & ->) Pu _ _ _|_ _ _ Pu _ _ _ _|x g q _ _ _ _ Pu _ _ _ _|_ Q _ _ _ _ _];
+    try (destruct (qs_fields _ _ Q) as (_ & Pu & _)); rewrite Pu in Hin; try (apply (in_lin_grows s _ _ G); apply P; exact Hin).
+  apply in_app_or in Hin. destruct Hin as [Hin|[E|[]]]; [apply (in_lin_grows s _ _ G); apply P; exact Hin|].
+  inversion E as [[E1 E2]]. rewrite <- E1. cbn [fsid psh_frame]. apply (in_lin_grows s _ _ G).
+  specialize (O t sid Es). rewrite Ei in O. exact O.
+Qed.
+
+Section PumpSyn.
+Variable p : tid.
+Hypothesis p_not_recv : p <> rtid.
+
+(* in the linearisation log, every frame the forwarding task has logged is preceded by the SYN of its stream *)
+Definition syn_first (s : state) : Prop :=
+  forall l1 l2 f, lin s = l1 ++ (p, f) :: l2 -> exists u, In (u, syn_frame (fsid f)) l1.
+
+Lemma app_cons_snoc {A} (l l1 l2 : list A) (x y : A) :
+  l ++ [x] = l1 ++ y :: l2 -> (l2 = [] /\ l1 = l /\ y = x) \/ exists l2', l2 = l2' ++ [x] /\ l = l1 ++ y :: l2'.
+Proof.
+  revert l. induction l1 as [|a l1 IH]; intros l E.
+  - destruct l as [|b l]; cbn in E.
+    + inversion E; subst. left. auto.
+    + inversion E; subst. right. exists l. split; reflexivity.
+  - destruct l as [|b l]; cbn in E.
+    + inversion E as [[E1 E2]]. destruct l1; discriminate.
+    + inversion E as [[E1 E2]]. subst a. destruct (IH l E2) as [(H1 & H2 & H3)|(l2' & H1 & H2)].
+      * left. subst. auto.
+      * right. exists l2'. subst. split; reflexivity.
+Qed.
+
+Lemma mine_in t l f : In f (mine t l) -> In (t, f) l.
+Proof.
+  unfold mine. intros H. apply in_map_iff in H. destruct H as ([u g] & E & Hin). cbn in E. subst g.
+  apply filter_In in Hin. destruct Hin as [Hin Eq]. cbn in Eq. apply Nat.eqb_eq in Eq. subst u. exact Hin.
+Qed.
+
+Lemma step_syn_first s t s' :
+  Inv s -> PF p s -> pushed_ok s -> order_ok s p -> syn_first s -> step s t = Some s' -> syn_first s'.
+Proof.
+  intros HI Pf Po Oo S H l1 l2 f E.
+  destruct (step_lin_point s t s' HI H) as [L|(k & g & Pc & L)]; rewrite L in E; [apply (S l1 l2 f E)|].
+  destruct (app_cons_snoc _ _ _ _ _ E) as [(_ & -> & Eq)|(l2' & _ & E2)]; [|apply (S l1 l2' f E2)].
+  inversion Eq; subst t g.
+  (* p appends f: f is the frame p has in hand, hence one of its submissions, hence pushed by some u *)
+  assert (In f (t_sub (tasks s p))) as Hs.
+  { unfold order_ok in Oo. rewrite <- Oo. apply in_or_app. right. destruct Pc as [-> | ->]; cbn; left; reflexivity. }
+  assert (In f (map snd (pushed s))) as Hp.
+  { rewrite <- (pf_fifo p s Pf). apply in_or_app. left. exact Hs. }
+  apply in_map_iff in Hp. destruct Hp as ([u g] & Eg & Hin). cbn in Eg. subst g.
+  exists u. apply Po. exact Hin.
+Qed.
+
+Theorem run_syn_first progs buf pend sched :
+  only_pump (nth p progs []) -> (forall u, u <> p -> ~ In CPump (nth u progs [])) ->
+  Forall (fun x => fst x <> p) pend ->
+  let s := run (init progs buf pend) sched in
+  closed s = false -> syn_first s /\ pushed_ok s.
+Proof.
+  intros A B Hp s C.
+  assert (forall sc s0, Inv s0 -> PF p s0 -> open_all s0 -> pushed_ok s0 -> order_ok s0 p -> syn_first s0 ->
+                           closed (run s0 sc) = false ->
+                           syn_first (run s0 sc) /\ pushed_ok (run s0 sc)) as G.
+  { clear s C. intros sc. induction sc as [|t sc IH]; intros s0 HI Pf Oa Po Oo S C; [split; assumption|].
+    rewrite run_cons in *. unfold step_or_skip in *. destruct (step s0 t) as [s1|] eqn:E; [|apply IH; assumption].
+    pose proof (run_open sc s1 C) as C1.
+    apply IH; try assumption.
+    - eapply step_inv; eauto.
+    - eapply step_pf; eauto.
+    - eapply step_open_all; eauto.
+    - eapply step_pushed_ok; eauto.
+    - destruct (Nat.eq_dec p t) as [->|Hne]; [eapply order_self; eauto | eapply order_other; eauto].
+    - eapply step_syn_first; eauto. }
+  apply G; try assumption.
+  - apply inv_init.
+  - apply pf_init; assumption.
+  - intros u. apply open_ok_init.
+  - intros u f H. destruct H.
+  - apply order_init. exact Hp.
+  - intros l1 l2 f E. cbn in E.
+    assert (In (p, f) pend) as Hin by (rewrite E; apply in_or_app; right; left; reflexivity).
+    rewrite Forall_forall in Hp. exfalso. apply (Hp _ Hin). reflexivity.
+Qed.
+
+End PumpSyn.
